@@ -31,6 +31,7 @@ type Conf struct {
 	ExitMarker  string            `json:"exit_marker"` // file written by deferred plugin code when Serve returns
 	ExitDelayMs int               `json:"exit_delay_ms"`
 	Test        bool              `json:"test"`
+	Impostor    string            `json:"impostor"` // see impostor.go
 }
 
 func set(proto string, impl *kv.Impl) plugin.PluginSet {
@@ -46,6 +47,13 @@ func main() {
 	if err := json.Unmarshal([]byte(os.Getenv("VP_CONF")), &c); err != nil {
 		fmt.Fprintln(os.Stderr, "vplugin: bad VP_CONF:", err)
 		os.Exit(3)
+	}
+	if c.Impostor != "" {
+		if os.Getenv(c.CookieKey) != c.CookieValue {
+			os.Exit(1)
+		}
+		impostor(&c)
+		return
 	}
 	impl := &kv.Impl{}
 	sc := &plugin.ServeConfig{HandshakeConfig: plugin.HandshakeConfig{MagicCookieKey: c.CookieKey, MagicCookieValue: c.CookieValue}}
